@@ -178,6 +178,14 @@ def check(pm: ProgramModel, ctx: Ctx) -> None:
     cd.report("VOC", "stress-shapes", cd.roundtrip(ctc_model(mb, stress_trees(mb))),
               "constraint shapes that stress normal forms", ("constraint", "constraint-count"))
     cd.large(mb, BINARY_LOGICAL)
+    from ..interact import Fragment, sweep
+    pv = {k: values[k] for k in ("none", "bool", "false", "int", "zero", "float", "float-integral", "empty-str", "str",
+                                 "str-true", "str-number", "str-null", "empty-list", "list", "map", "map-keyed-name",
+                                 "float-17-digits", "int-beyond-2**53")}
+    fr = Fragment(names=dict(NAME_CLASSES), ops=tuple(BINARY_LOGICAL), values=pv)
+    ctx.analysed.update({f"C05:pairwise-{k_}": v for k_, v in sweep(
+        cd, mb, fr, ("name", "root", "parent", "relation", "constraint", "constraint-count", "constraint-name", "abstract",
+                     "attribute")).items()})
     cd.finish_unowned()
     ctx.analysed["C05:compositions"] = cd.n
     ctx.floor(rule, "obligations", len(ctx.obligations), 40)
